@@ -172,10 +172,22 @@ func (s *Snapshot) History(key []byte, offset uint64, descOrder bool, limit int)
 
 	valRefs = make([]ValueRef, len(timedValues))
 
+	// revision of the first returned version (as in ImmuStore.History)
+	rev := offset + 1
+	if descOrder {
+		rev = hCount - offset
+	}
+
 	for i, timedValue := range timedValues {
-		valRef, err := s.st.valueRefFrom(timedValue.Ts, hCount-uint64(i), timedValue.Value)
+		valRef, err := s.st.valueRefFrom(timedValue.Ts, rev, timedValue.Value)
 		if err != nil {
 			return nil, 0, err
+		}
+
+		if descOrder {
+			rev--
+		} else {
+			rev++
 		}
 
 		if s.refInterceptor != nil {
